@@ -51,6 +51,18 @@ const (
 type c16Target struct {
 	Name string
 	F    func(x []byte)
+	// OnlySeed: the target is run only on the deviations of the seed of this name (matched parameter sets)
+	OnlySeed string
+}
+
+// c16Matched holds, per serializer deviation, parameter-set maps in which EVERY id resolves to the parameter sets that
+// deviation's slice was written against: the slice-header sections a parameter set switches on (weighted prediction,
+// slice groups, reference list sizes, entry points ...) are then parsed as intended when the slice bytes deviate.
+type c16Matched struct {
+	avcSPS  map[uint32]*avc.SPS
+	avcPPS  map[uint32]*avc.PPS
+	hevcSPS map[uint32]*hevc.SPS
+	hevcPPS map[uint32]*hevc.PPS
 }
 
 var c16Env struct {
@@ -65,6 +77,8 @@ var c16Env struct {
 	seedNames        []string
 	seiPayloadSeeds  [][]byte
 	hevcPicTimingPar []sei.HEVCPicTimingParams
+	matched          map[string]*c16Matched // seed name ("avc slice <dev>") -> parameter sets of that deviation
+	matchedNames     []string
 }
 
 // c16Setup builds parameter-set maps for the slice/PPS/SEI parsers from the serializers' outputs: every id a
@@ -74,6 +88,7 @@ func c16Setup() {
 		e := &c16Env
 		e.avcSPS, e.avcPPS = map[uint32]*avc.SPS{}, map[uint32]*avc.PPS{}
 		e.hevcSPS, e.hevcPPS = map[uint32]*hevc.SPS{}, map[uint32]*hevc.PPS{}
+		e.matched = map[string]*c16Matched{}
 		add := func(name string, b []byte) {
 			e.seedNALs, e.seedNames = append(e.seedNALs, b), append(e.seedNames, name)
 		}
@@ -94,6 +109,15 @@ func c16Setup() {
 				e.avcSPSList = append(e.avcSPSList, ps)
 				if pp, err := avc.ParsePPSNALUnit(ppsN, map[uint32]*avc.SPS{uint32(ps.ParameterID): ps}); err == nil {
 					avcPPSList = append(avcPPSList, pp)
+					m := &c16Matched{avcSPS: map[uint32]*avc.SPS{}, avcPPS: map[uint32]*avc.PPS{}}
+					for id := 0; id < 32; id++ {
+						m.avcSPS[uint32(id)] = ps
+					}
+					for id := 0; id < 256; id++ {
+						m.avcPPS[uint32(id)] = pp
+					}
+					e.matched["avc slice "+d.Name] = m
+					e.matchedNames = append(e.matchedNames, "avc slice "+d.Name)
 				}
 			}
 		}
@@ -115,6 +139,89 @@ func c16Setup() {
 				e.hevcSPSList = append(e.hevcSPSList, ps)
 				if pp, err := hevc.ParsePPSNALUnit(ppsN, map[uint32]*hevc.SPS{uint32(ps.SpsID): ps}); err == nil {
 					hevcPPSList = append(hevcPPSList, pp)
+					m := &c16Matched{hevcSPS: map[uint32]*hevc.SPS{}, hevcPPS: map[uint32]*hevc.PPS{}}
+					for id := 0; id < 16; id++ {
+						m.hevcSPS[uint32(id)] = ps
+					}
+					for id := 0; id < 64; id++ {
+						m.hevcPPS[uint32(id)] = pp
+					}
+					e.matched["hevc slice "+d.Name] = m
+					e.matchedNames = append(e.matchedNames, "hevc slice "+d.Name)
+				}
+			}
+		}
+		// pairs (parameter-set level deviation, slice level deviation): the slice sections a PPS/SPS flag switches on are
+		// then present together with non-default slice choices (P/B slices, overridden reference counts, ...). These
+		// seeds are fed to the slice-header targets only.
+		{
+			ad := avcDeviations()
+			for _, dp := range ad {
+				if !strings.HasPrefix(dp.Name, "pps.") {
+					continue
+				}
+				for _, ds := range ad {
+					if !strings.HasPrefix(ds.Name, "slice.P+") && !strings.HasPrefix(ds.Name, "slice.B+") && !strings.HasPrefix(ds.Name, "slice.type=") {
+						continue
+					}
+					s, p, sl := avcBuild([]dev{dp, ds})
+					spsN, ppsN := s.NAL(), p.NAL(s.ChromaIDC())
+					sliceN, _ := sl.NAL(s, p, 3)
+					ps, err := avc.ParseSPSNALUnit(spsN, true)
+					if err != nil {
+						continue
+					}
+					pp, err := avc.ParsePPSNALUnit(ppsN, map[uint32]*avc.SPS{uint32(ps.ParameterID): ps})
+					if err != nil {
+						continue
+					}
+					name := "avc slice " + dp.Name + " + " + ds.Name
+					m := &c16Matched{avcSPS: map[uint32]*avc.SPS{}, avcPPS: map[uint32]*avc.PPS{}}
+					for id := 0; id < 32; id++ {
+						m.avcSPS[uint32(id)] = ps
+					}
+					for id := 0; id < 256; id++ {
+						m.avcPPS[uint32(id)] = pp
+					}
+					e.matched[name] = m
+					e.matchedNames = append(e.matchedNames, name)
+					add(name, sliceN)
+				}
+			}
+			hd := hevcDeviations()
+			for _, dp := range hd {
+				if !strings.HasPrefix(dp.Name, "pps.") && dp.Name != "sps.long_term" && !strings.HasPrefix(dp.Name, "sps.long_term") {
+					continue
+				}
+				for _, ds := range hd {
+					if !strings.HasPrefix(ds.Name, "slice.type=") {
+						continue
+					}
+					s, p, sl, ok := hevcBuild([]hdev{dp, ds})
+					if !ok {
+						continue
+					}
+					spsN, ppsN := s.NAL(), p.NAL()
+					sliceN, _ := sl.NAL(s, p, 3)
+					ps, err := hevc.ParseSPSNALUnit(spsN)
+					if err != nil {
+						continue
+					}
+					pp, err := hevc.ParsePPSNALUnit(ppsN, map[uint32]*hevc.SPS{uint32(ps.SpsID): ps})
+					if err != nil {
+						continue
+					}
+					name := "hevc slice " + dp.Name + " + " + ds.Name
+					m := &c16Matched{hevcSPS: map[uint32]*hevc.SPS{}, hevcPPS: map[uint32]*hevc.PPS{}}
+					for id := 0; id < 16; id++ {
+						m.hevcSPS[uint32(id)] = ps
+					}
+					for id := 0; id < 64; id++ {
+						m.hevcPPS[uint32(id)] = pp
+					}
+					e.matched[name] = m
+					e.matchedNames = append(e.matchedNames, name)
+					add(name, sliceN)
 				}
 			}
 		}
@@ -176,7 +283,7 @@ func c16Targets() []c16Target {
 	c16Setup()
 	e := &c16Env
 	var t []c16Target
-	add := func(name string, f func(x []byte)) { t = append(t, c16Target{name, f}) }
+	add := func(name string, f func(x []byte)) { t = append(t, c16Target{Name: name, F: f}) }
 	// ---- walkers over length-prefixed samples
 	add("avc.GetNalusFromSample", func(x []byte) { _, _ = avc.GetNalusFromSample(x) })
 	add("avc.FindNaluTypes", func(x []byte) { _ = avc.FindNaluTypes(x) })
@@ -224,6 +331,69 @@ func c16Targets() []c16Target {
 	add("avc.ParsePPSNALUnit(no SPS)", func(x []byte) { _, _ = avc.ParsePPSNALUnit(x, nil) })
 	add("avc.ParseSliceHeader", func(x []byte) { _, _ = avc.ParseSliceHeader(x, e.avcSPS, e.avcPPS) })
 	add("avc.ParseSliceHeader(no parameter sets)", func(x []byte) { _, _ = avc.ParseSliceHeader(x, nil, nil) })
+	// untrusted parameter sets feeding the slice parser (what mp4ff-nallister / the protect-range functions do): x is
+	// parsed as SPS / PPS and, when accepted, used for every id when the seed slices are parsed
+	avcSlices, hevcSlices := [][]byte{}, [][]byte{}
+	for i, n := range e.seedNames {
+		if strings.HasPrefix(n, "avc slice ") && !strings.Contains(n, " + ") && (strings.HasSuffix(n, " base") || strings.Contains(n, "slice.P+") || strings.Contains(n, "slice.B+") || strings.Contains(n, "slice.type=")) {
+			avcSlices = append(avcSlices, e.seedNALs[i])
+		}
+		if strings.HasPrefix(n, "hevc slice ") && !strings.Contains(n, " + ") && (strings.HasSuffix(n, " base") || strings.Contains(n, "slice.type=")) {
+			hevcSlices = append(hevcSlices, e.seedNALs[i])
+		}
+	}
+	add("avc.ParsePPSNALUnit then avc.ParseSliceHeader with that PPS", func(x []byte) {
+		if pp, err := avc.ParsePPSNALUnit(x, e.avcSPS); err == nil && pp != nil {
+			m := map[uint32]*avc.PPS{}
+			for id := uint32(0); id < 256; id++ {
+				m[id] = pp
+			}
+			for _, sl := range avcSlices {
+				_, _ = avc.ParseSliceHeader(sl, e.avcSPS, m)
+			}
+		}
+	})
+	add("avc.ParseSPSNALUnit then avc.ParsePPSNALUnit + avc.ParseSliceHeader with that SPS", func(x []byte) {
+		if sp, err := avc.ParseSPSNALUnit(x, true); err == nil && sp != nil {
+			m := map[uint32]*avc.SPS{}
+			for id := uint32(0); id < 32; id++ {
+				m[id] = sp
+			}
+			for _, sl := range avcSlices {
+				_, _ = avc.ParseSliceHeader(sl, m, e.avcPPS)
+			}
+		}
+	})
+	add("hevc.ParsePPSNALUnit then hevc.ParseSliceHeader with that PPS", func(x []byte) {
+		if pp, err := hevc.ParsePPSNALUnit(x, e.hevcSPS); err == nil && pp != nil {
+			m := map[uint32]*hevc.PPS{}
+			for id := uint32(0); id < 64; id++ {
+				m[id] = pp
+			}
+			for _, sl := range hevcSlices {
+				_, _ = hevc.ParseSliceHeader(sl, e.hevcSPS, m)
+			}
+		}
+	})
+	add("hevc.ParseSPSNALUnit then hevc.ParseSliceHeader with that SPS", func(x []byte) {
+		if sp, err := hevc.ParseSPSNALUnit(x); err == nil && sp != nil {
+			m := map[uint32]*hevc.SPS{}
+			for id := uint32(0); id < 16; id++ {
+				m[id] = sp
+			}
+			for _, sl := range hevcSlices {
+				_, _ = hevc.ParseSliceHeader(sl, m, e.hevcPPS)
+			}
+		}
+	})
+	for _, nm := range e.matchedNames {
+		m, nm := e.matched[nm], nm
+		if m.avcSPS != nil {
+			t = append(t, c16Target{Name: "avc.ParseSliceHeader[parameter sets of: " + nm + "]", OnlySeed: nm, F: func(x []byte) { _, _ = avc.ParseSliceHeader(x, m.avcSPS, m.avcPPS) }})
+		} else {
+			t = append(t, c16Target{Name: "hevc.ParseSliceHeader[parameter sets of: " + nm + "]", OnlySeed: nm, F: func(x []byte) { _, _ = hevc.ParseSliceHeader(x, m.hevcSPS, m.hevcPPS) }})
+		}
+	}
 	add("avc.GetSliceTypeFromNALU", func(x []byte) { _, _ = avc.GetSliceTypeFromNALU(x) })
 	add("avc.CreateAVCDecConfRec", func(x []byte) {
 		if r, err := avc.CreateAVCDecConfRec([][]byte{x}, [][]byte{x}, true); err == nil && r != nil {
@@ -548,7 +718,11 @@ func c16Seeds() []c16Seed {
 var c16Bytes = []byte{0x00, 0x01, 0x03, 0x7f, 0x80, 0xfe, 0xff}
 var c16Words32 = []uint32{0, 1, 2, 3, 4, 5, 0x7fffffff, 0x80000000, 0xfffffff0, 0xfffffffb, 0xfffffffc, 0xfffffffd, 0xfffffffe, 0xffffffff}
 var c16Words16 = []uint16{0, 1, 0x7fff, 0x8000, 0xfffe, 0xffff}
-var c16UE = []uint64{255, 65535, 1 << 20, 1<<31 - 1, 1 << 31, 1<<32 - 2}
+var c16UE = []uint64{255, 65535, 1 << 20, 1<<31 - 1, 1 << 31, 1<<32 - 2, ^uint64(0)}
+
+// values just above the ranges the standards allow for small counters (reference indices 0..14 / 0..31, ids 0..63,
+// 8-bit fields): spliced into slice headers in the quick tier, into every NAL unit in the thorough tier
+var c16UESmall = []uint64{15, 16, 32, 64, 256}
 
 // c16Deviations calls fn with every single deviation of the seed (and the seed itself). fn must not retain x.
 func c16Deviations(s c16Seed, thorough bool, fn func(desc string, x []byte)) {
@@ -629,18 +803,66 @@ func c16Deviations(s c16Seed, thorough bool, fn func(desc string, x []byte)) {
 				nbits = 2400
 			}
 			for off := 0; off < nbits; off++ {
-				for _, v := range c16UE {
+				ues := c16UE
+				if thorough || strings.Contains(s.Name, " slice ") {
+					ues = append(append([]uint64{}, c16UE...), c16UESmall...)
+				}
+				for _, v := range ues {
 					var w ebspref.Bits
 					for k := 0; k < off; k++ {
 						w.Put(uint64(rbsp[k/8]>>(7-k%8))&1, 1)
 					}
-					w.PutUE(v)
+					if v == ^uint64(0) {
+						// 64 leading zero bits: the library's reader computes (1<<64)-1 plus the 64 suffix bits
+						w.Put(0, 64)
+						w.Put(1, 1)
+						w.Put(0, 64)
+					} else {
+						w.PutUE(v)
+					}
 					for k := off; k < len(rbsp)*8 && k < off+256; k++ {
 						w.Put(uint64(rbsp[k/8]>>(7-k%8))&1, 1)
 					}
 					w.Put(1, 1)
 					x := append(append(buf[:0], b[:hdr]...), ebspref.Escape(w.Bytes(true))...)
 					fn(fmt.Sprintf("splice ue(%d) at rbsp bit %d", v, off), x)
+				}
+				// the Exp-Golomb code that starts at this bit offset REPLACED by another value: where the offset is the
+				// start of a real ue(v)/se(v) element this substitutes the field and keeps every later field aligned
+				if s.Kind == "nal" {
+					bit := func(k int) uint64 { return uint64(rbsp[k/8]>>(7-k%8)) & 1 }
+					lz := 0
+					for off+lz < len(rbsp)*8 && bit(off+lz) == 0 {
+						lz++
+					}
+					end := off + 2*lz + 1 // first bit after the code
+					if lz <= 32 && end <= len(rbsp)*8 {
+						rv := []uint64{255, 1<<32 - 2, ^uint64(0)}
+						if thorough || strings.Contains(s.Name, " slice ") || strings.Contains(s.Name, " pps ") {
+							rv = []uint64{15, 32, 255, 65535, 1<<32 - 2, ^uint64(0)}
+						}
+						if thorough {
+							rv = append(rv, 16, 64, 256, 1<<31)
+						}
+						for _, v := range rv {
+							var w ebspref.Bits
+							for k := 0; k < off; k++ {
+								w.Put(bit(k), 1)
+							}
+							if v == ^uint64(0) {
+								w.Put(0, 64)
+								w.Put(1, 1)
+								w.Put(0, 64)
+							} else {
+								w.PutUE(v)
+							}
+							for k := end; k < len(rbsp)*8; k++ {
+								w.Put(bit(k), 1)
+							}
+							x := append(append(buf[:0], b[:hdr]...), ebspref.Escape(w.Bytes(true))...)
+							fn(fmt.Sprintf("replace the ue code at rbsp bit %d by ue(%d)", off, v), x)
+						}
+					}
 				}
 			}
 		}
@@ -685,6 +907,12 @@ func c16Eval(targets []c16Target, only string, desc string, x []byte, perCall bo
 		t := &targets[i]
 		if only != "" && t.Name != only {
 			continue
+		}
+		if t.OnlySeed != "" && only == "" && t.OnlySeed != seedName {
+			continue
+		}
+		if only == "" && strings.Contains(seedName, " + ") && !strings.Contains(t.Name, "ParseSliceHeader") {
+			continue // pair seeds go to the slice-header targets only
 		}
 		if ord == c16ResumeOrd && i < c16ResumeTidx {
 			continue
@@ -748,6 +976,9 @@ func c16Eval(targets []c16Target, only string, desc string, x []byte, perCall bo
 
 // c16Class maps a target name with its variant to the class used in signatures.
 func c16Class(name string) string {
+	if i := strings.Index(name, "[parameter sets of:"); i > 0 {
+		return name[:i] + "[parameter sets the slice was written against]"
+	}
 	if i := strings.IndexByte(name, '('); i > 0 {
 		return name[:i]
 	}
@@ -963,7 +1194,7 @@ func runC16(c *vf.Ctx) {
 	}
 	targets := c16Targets()
 	seeds := c16Seeds()
-	c.Rule = "explicit-state search over byte strings fed to every codec-helper entry point: states = valid NAL units (every single-deviation SPS, PPS and slice header of the ref/h264syn and ref/h265syn serializers, captured and constructed SEI), length-prefixed samples and Annex B streams of them, configuration records, ADTS headers and AudioSpecificConfigs, and all their single deviations (every bit flip, 7 boundary values per byte, 14 boundary 32-bit and 6 boundary 16-bit words and the remaining-length family at every offset, every truncation, inserted 0xff/0x00 runs at every offset, a huge Exp-Golomb code spliced at every RBSP bit offset), plus every byte string of length <= 2 (thorough: <= 3) and longer strings over a 26-value alphabet. Every state is passed to every target (" + fmt.Sprint(len(targets)) + " entry points incl. parameter-set variants); per call: recovered panic, 2 s, 256 KiB + 1024 x len allocated bytes. Isolated workers with RLIMIT_AS 6 GiB; a dead or hung worker is attributed to the input and target in flight by traced re-runs."
+	c.Rule = "explicit-state search over byte strings fed to every codec-helper entry point: states = valid NAL units (every single-deviation SPS, PPS and slice header of the ref/h264syn and ref/h265syn serializers, captured and constructed SEI), length-prefixed samples and Annex B streams of them, configuration records, ADTS headers and AudioSpecificConfigs, and all their single deviations (every bit flip, 7 boundary values per byte, 14 boundary 32-bit and 6 boundary 16-bit words and the remaining-length family at every offset, every truncation, inserted 0xff/0x00 runs at every offset, a huge Exp-Golomb code spliced in at every RBSP bit offset, the Exp-Golomb code starting at every RBSP bit offset replaced by boundary values from 15 to 2^64-1), plus every byte string of length <= 2 (thorough: <= 3) and longer strings over a 26-value alphabet. Every state is passed to every general target, and every deviation of a slice seed additionally to ParseSliceHeader with parameter-set maps in which every id resolves to the parameter sets that slice was written against (" + fmt.Sprint(len(targets)) + " targets in all); per call: recovered panic, 2 s, 256 KiB + 1024 x len allocated bytes. Isolated workers with RLIMIT_AS 6 GiB; a dead or hung worker is attributed to the input and target in flight by traced re-runs."
 	c.Bound = "ring 1 around " + fmt.Sprint(len(seeds)) + " seeds; all strings of length <= 2 (quick) / <= 3 (thorough); length 3-4 (quick) / 4-5 (thorough) over the 26-value alphabet"
 	c.Set("targets", len(targets))
 	c.Set("seeds", len(seeds))
